@@ -7,7 +7,7 @@
 (* response record `resp` and the observed state before/after (`pre`,      *)
 (* `post`: the handler's session key by client key number, client key      *)
 (* count, wallet open?, active account, top-level directory unchanged?,    *)
-(* digest of the wallet directory).                                        *)
+(* digest of the wallet directory, digest of the handler's keychain mask). *)
 (*                                                                         *)
 (*   Layer P  the seven predicates of GateSound evaluated on the OBSERVED  *)
 (*            step.  A failure prints a VIOL line: the verdict.            *)
@@ -32,11 +32,12 @@ Has(r, f) == f \in DOMAIN r
 SeqSet(s) == {s[i] : i \in DOMAIN s}
 
 \* ------------------------------------------------------------ observation
-ObsState(j) == [sess |-> j.sess, ngen |-> j.ngen, open |-> j.open, active |-> j.active, tld |-> j.tld, dig |-> j.dig]
+ObsState(j) == [sess |-> j.sess, ngen |-> j.ngen, open |-> j.open, active |-> j.active, tld |-> j.tld, dig |-> j.dig,
+                mask |-> j.mask]
 ObsResp(j) == [cls |-> j.cls, code |-> j.code, deckey |-> j.deckey, inner |-> j.inner, items |-> j.items,
                leak_raw |-> SeqSet(j.leak_raw), leak_dec |-> SeqSet(j.leak_dec),
                nkeys |-> IF j.newkey >= 1 THEN 1 ELSE 0]
-Effect(a, b) == a.open # b.open \/ a.active # b.active \/ a.tld # b.tld \/ a.dig # b.dig
+Effect(a, b) == a.open # b.open \/ a.active # b.active \/ a.tld # b.tld \/ a.dig # b.dig \/ a.mask # b.mask
 
 \* -------------------------------------------------------------- reporting
 Viol(m, e, cls, info) ==
@@ -52,7 +53,7 @@ TReset ==
   /\ IsEv("reset")
   /\ LET o == ObsState(Rec[l].post) IN
      /\ cur' = o
-     /\ ms' = [sess |-> o.sess, ngen |-> o.ngen, open |-> o.open, active |-> o.active, nacct |-> 0]
+     /\ ms' = [sess |-> o.sess, ngen |-> o.ngen, open |-> o.open, active |-> o.active, nacct |-> 0, fg |-> Rec[l].foreign]
   /\ l' = l + 1 /\ UNCHANGED np
 
 \* ---------------------------------------------------------------- request
@@ -73,6 +74,7 @@ MList(e, q, h, r, pre, post) ==
      <<"post.open", h.st.open = post.open, h.st.open, post.open>>,
      <<"post.active", h.st.active = post.active, h.st.active, post.active>>,
      <<"store touched", h.touch = (pre.dig # post.dig), h.touch, pre.dig # post.dig>>,
+     <<"handler keychain mask changed", h.mtouch = (pre.mask # post.mask), h.mtouch, pre.mask # post.mask>>,
      <<"top-level directory", post.tld, TRUE, post.tld>>,
      <<"pre-state", ObsState(e.pre) = pre, pre, ObsState(e.pre)>>,
      \* binding of the harness itself: the envelope it built is a genuine AEAD message under the
@@ -103,7 +105,7 @@ TReq ==
         ELSE TRUE
      /\ cur' = post
      /\ ms' = [sess |-> post.sess, ngen |-> post.ngen, open |-> post.open, active |-> post.active,
-               nacct |-> IF CheckM THEN h.st.nacct ELSE 0]
+               nacct |-> IF CheckM THEN h.st.nacct ELSE 0, fg |-> ms.fg]
      /\ np' = [v |-> np.v + Cardinality({i \in 1..7 : ~GateHolds(i, pre.sess, q, r, eff, post.sess, e.resp.newkey, e.resp.fresh)}),
                m |-> np.m + IF CheckM THEN Cardinality(MBad(MList(e, q, h, r, pre, post))) ELSE 0]
   /\ l' = l + 1
@@ -115,8 +117,8 @@ TOther ==
   /\ l' = l + 1 /\ UNCHANGED <<cur, ms, np>>
 
 TInit == /\ l = 1
-         /\ cur = [sess |-> 0, ngen |-> 0, open |-> FALSE, active |-> "", tld |-> TRUE, dig |-> ""]
-         /\ ms = InitState(FALSE)
+         /\ cur = [sess |-> 0, ngen |-> 0, open |-> FALSE, active |-> "", tld |-> TRUE, dig |-> "", mask |-> ""]
+         /\ ms = InitState(FALSE, FALSE)
          /\ np = [v |-> 0, m |-> 0]
 TNext == TReset \/ TReq \/ TOther
 TSpec == TInit /\ [][TNext]_tvars
